@@ -51,6 +51,39 @@ func (c *keccakCircuit) Define(api frontend.API) error {
 	return nil
 }
 
+// two hashes over nested windows of ONE buffer inside one circuit (first In[:8*N1], then the whole of In, or the other way round):
+// a gadget is a function of the bits it is handed and leaves its caller's slice alone
+type nestedKeccakCircuit struct {
+	In    []frontend.Variable
+	Out1  []frontend.Variable
+	Out2  []frontend.Variable
+	n1    int
+	dom   string
+	first int // 1: short window first, 2: whole buffer first
+}
+
+func (c *nestedKeccakCircuit) Define(api frontend.API) error {
+	hash := func(in []frontend.Variable) []frontend.Variable {
+		if c.dom == "keccak" {
+			return keccak.NewKeccak256(api, len(in), in...)
+		}
+		return keccak.NewSHA3_256(api, len(in), in...)
+	}
+	var h1, h2 []frontend.Variable
+	if c.first == 1 {
+		h1 = hash(c.In[:8*c.n1])
+		h2 = hash(c.In)
+	} else {
+		h2 = hash(c.In)
+		h1 = hash(c.In[:8*c.n1])
+	}
+	for i := range c.Out1 {
+		api.AssertIsEqual(h1[i], c.Out1[i])
+		api.AssertIsEqual(h2[i], c.Out2[i])
+	}
+	return nil
+}
+
 func bitsOfBytes(bs []int) []frontend.Variable {
 	out := make([]frontend.Variable, 0, 8*len(bs))
 	for _, b := range bs {
@@ -148,6 +181,28 @@ func init() {
 				r.Case = map[string]interface{}{"cases": []c04Case{c}}
 			}
 			emit(r)
+		}
+		// nested windows: pairs of cases of this batch where one message is a proper prefix of the other
+		pairs := 0
+		for i := range cs.Cases {
+			for j := range cs.Cases {
+				a, b := cs.Cases[i], cs.Cases[j]
+				if pairs >= 8 || a.Dom != b.Dom || a.Len >= b.Len || hexBytes(b.Msg[:a.Len]) != hexBytes(a.Msg) {
+					continue
+				}
+				pairs++
+				for first := 1; first <= 2; first++ {
+					shape := &nestedKeccakCircuit{In: make([]frontend.Variable, 8*b.Len), Out1: make([]frontend.Variable, 256), Out2: make([]frontend.Variable, 256), n1: a.Len, dom: a.Dom, first: first}
+					assign := &nestedKeccakCircuit{In: bitsOfBytes(b.Msg), Out1: bitsOfBytes(a.Digest), Out2: bitsOfBytes(b.Digest), n1: a.Len, dom: a.Dom, first: first}
+					r := Result{ID: fmt.Sprintf("%s/nested/len=%d-in-%d/%s/first=%d", a.Dom, a.Len, b.Len, b.Content, first), OK: true, Kind: "keccak-nested", Trivial: true}
+					if err := engineSolved(shape, assign, bn254R); err != nil {
+						r.OK = false
+						r.Detail = fmt.Sprintf("one circuit hashing the first %d bytes of a %d-byte buffer and the whole buffer (order %d) rejects the spec's two digests: %s", a.Len, b.Len, first, firstLine(err.Error()))
+						r.Case = map[string]interface{}{"cases": []c04Case{a, b}}
+					}
+					emit(r)
+				}
+			}
 		}
 	}
 }
